@@ -496,6 +496,36 @@ def r_borrowed_r08_12(idx, r):
     r1_pairing(idx, Only(r, ["convert:nth-image"]))
 
 
+def r13_marker_case_flag_union_axial_only(idx, r):
+    """(a) SymmetryType.fromStr works on the lower-cased string throughout: the through-centre marker is looked for in that string too
+    (`Quarter Periodic Through Center` is the same symmetry as its lower-case spelling).  (b) a parameter location that names two places is
+    their UNION (`TOP | CORNERS`); the intersection of two distinct location flags is empty, the parameter silently becomes a block-average
+    one and HexBlock.rotate no longer turns it.  (c) a one-cell axial grid is axial-only (clause of R07.2): the block of a single-block
+    assembly takes its (i, j) from the assembly."""
+    from ..report import Only
+    from .c07 import r2_affine
+    f = idx.method("armi.reactor.geometry.SymmetryType", "fromStr")
+    calls = [c for c in iter_calls(f.node) if call_attr(c) == "_checkIfThroughCenter"]
+    if len(calls) != 1:
+        raise AnchorMissing("SymmetryType.fromStr: _checkIfThroughCenter")
+    env = single_assign_env(f.node)
+    a = propagate(calls[0].args[0], env)
+    r.require(".lower()" in norm(a), "fromStr:marker-looked-for-in-the-lower-cased-string", f, node=calls[0],
+              msg=f"the through-centre marker is looked for in `{norm(calls[0].args[0])}`, not in the lower-cased string: a capitalised spelling gives the no-centre-cell variant and the symmetric images are off by half a pitch")
+    n = 0
+    for m in idx.modules.values():
+        if ".tests" in m.name or not m.name.startswith("armi."):
+            continue
+        for x in ast.walk(m.tree):
+            if isinstance(x, ast.BinOp) and isinstance(x.op, (ast.BitAnd, ast.BitOr)) and all(isinstance(e, ast.Attribute) and norm(e.value).endswith("ParamLocation") for e in (x.left, x.right)):
+                n += 1
+                r.require(isinstance(x.op, ast.BitOr) or norm(x.left) == norm(x.right), f"{m.relpath}:{norm(x)}:locations-combined-by-union", (m.relpath, x.lineno, ""),
+                          msg=f"`{norm(x)}` is the intersection of two different location flags, i.e. no location at all: the parameter is no longer found among the corner/edge data that a block rotation turns")
+    if n < 2:
+        raise AnchorMissing("combined ParamLocation expressions")
+    r2_affine(idx, Only(r, ["StructuredGrid._isAxialOnly"]))
+
+
 def run(idx, chk):
     chk.explanation = (
         "C08: the two third-core images and the six index rotations are extracted as integer matrices and shown to equal exact 120/60k degree "
@@ -525,3 +555,5 @@ def run(idx, chk):
                  necessary="a cell and its symmetric images are classified alike; after rotate() pins are reported at the rotated positions")
     chk.run_rule("R08.12", "clauses of C07/C13 the symmetry answers rest on: a Cartesian grid keeps its half-pitch offset through changePitch and fromRectangle (R07.1); the n-th ", lambda r: r_borrowed_r08_12(idx, r), floor=2,
                  necessary="symmetric images are computed with the grid's real offset; a copy sits at the image cell in the image orientation")
+    chk.run_rule("R08.13", "the through-centre marker is found whatever the capitalisation; locations are combined by union; a one-cell axial grid is axial-only", lambda r: r13_marker_case_flag_union_axial_only(idx, r), floor=4,
+                 necessary="symmetric images are those of the real cell centres; every corner/edge vector follows a rotation; a cell and its images are classified alike")
